@@ -240,4 +240,40 @@ def r17_4(ctx: Ctx) -> RuleResult:
     return rr
 
 
-RULES = [r17_1, r17_2, r17_3, r17_4]
+def r17_5(ctx: Ctx) -> RuleResult:
+    """The rule table of a lexer is a function of *its* environment's identifier spellings and nothing else: building
+    it may not consult or fill a container shared between lexers (a class-level or module-level cache), whose key
+    can identify two different assignments of the spellings."""
+    rr = RuleResult("R17.5", "the lexer's rule table is built from its own environment only", floor=1)
+    fn = ctx.repo.require_func("Lexer.compile_rules")
+    cls = fn.cls
+    shared = []
+    for n in ast.walk(fn.node):
+        holder = None
+        if isinstance(n, ast.Attribute) and isinstance(n.value, ast.Name) and n.value.id in ("self", "cls") and cls is not None:
+            found = ctx.repo.class_attr(cls, n.attr)
+            if found is not None:
+                holder = found[1]
+        elif isinstance(n, ast.Attribute) and isinstance(n.value, ast.Call) and callee_name(n.value) == "type" and cls is not None:
+            found = ctx.repo.class_attr(cls, n.attr)
+            if found is not None:
+                holder = found[1]
+        elif isinstance(n, ast.Name) and isinstance(n.ctx, ast.Load) and n.id in fn.module.assigns:
+            holder = fn.module.assigns[n.id]
+        if holder is not None and (isinstance(holder, (ast.Dict, ast.List, ast.Set)) or (
+            isinstance(holder, ast.Call) and callee_name(holder) in ("dict", "list", "set", "defaultdict", "OrderedDict", "WeakValueDictionary"))):
+            shared.append(n)
+    stores = [n for n in ast.walk(fn.node) if isinstance(n, (ast.Attribute, ast.Subscript)) and isinstance(n.ctx, (ast.Store, ast.Del))]
+    for n in shared:
+        rr.bad(fn, n, f"compile_rules consults `{short(n)}`, a container shared by every lexer of the class / module: two "
+               "environments whose spellings collide under its key then lex with each other's identifier tokens",
+               construct=f"shared container {short(n)}")
+    for n in stores:
+        if not any(n is x or any(y is x for y in ast.walk(n)) for x in shared):
+            rr.bad(fn, n, f"compile_rules writes `{short(n)}`: the rule table must be returned, not remembered", construct=short(n))
+    if not shared and not stores:
+        rr.ok(fn.loc(), "compile_rules reads only its own patterns and self.env's tokens and writes nothing")
+    return rr
+
+
+RULES = [r17_1, r17_2, r17_3, r17_4, r17_5]
